@@ -16,6 +16,7 @@ CONSTANTS
   MaxInVain = 2
   AtomicNeg = FALSE
   PopAny = FALSE
+  MaxDangle = 0
   Bug = "none"
 INVARIANT TypeOK
 INVARIANT Antecedent
